@@ -127,6 +127,7 @@ fn run(args: &[String]) {
             "--dump-unit" => { dump_unit = v.and_then(|s| s.parse().ok()); i += 2; }
             "--dump-out" => { dump_out = v; i += 2; }
             "--profile" => { profile = v.unwrap_or_else(|| usage()); i += 2; }
+            "--journal" => { monitor::open_journal(&v.unwrap_or_else(|| usage())); i += 2; }
             "--cfg" => {
                 let kv = v.unwrap_or_else(|| usage());
                 let (k, val) = kv.split_once('=').unwrap_or_else(|| usage());
